@@ -948,14 +948,18 @@ class SgzReader(object):
 
         header = self.segy_traceheader_template.copy()
 
+        # Header fields which duplicate one another share a FileOffset, read each stored value once
+        values_read = {}
         for k, v in header.items():
             if isinstance(v, FileOffset):
                 if load_all_headers or not self.structured:
                     self.read_variant_headers()
                     header[k] = self.variant_headers[k][index]
                 else:
-                    buf = self.file.read_range(self.file, v + 4*index, 4)  # A 32-bit int is 4 bytes
-                    header[k] = np.frombuffer(buf, dtype=np.int32)[0]
+                    if v not in values_read:
+                        buf = self.file.read_range(self.file, v + 4*index, 4)  # A 32-bit int is 4 bytes
+                        values_read[v] = np.frombuffer(buf, dtype=np.int32)[0]
+                    header[k] = values_read[v]
         return header
 
     def get_file_binary_header(self):
